@@ -1,4 +1,5 @@
 """C09 — EnumDiscriminants mirrors the enum: same variants, order, repr, discriminants."""
+import copy
 from vlib.defs import Item, Variant, Field, EM, DM, VM, ser, tos, msg, doc, DISABLED
 from vlib.run import Corpus
 from vlib import structs as T
@@ -135,6 +136,19 @@ def build_corpus(tier, rng):
                 it.dmetas = [DM("derive", paths=["strum::FromRepr", "PartialOrd"])] if rp else [DM("derive", paths=["PartialOrd"])]      # (FromRepr without a repr re-types the expressions as usize)
             assert discrs(it) == [val for _, val in fl], (fl, discrs(it))
             items.append(("discriminant-spelling", it))
+    # a repr hint REQUESTED for the generated enum (strum_discriminants(repr(..))) next to the enum's own #[repr]: both take effect
+    for own, req in (("i64", "align(2)"), ("u8", "align(4)"), ("C", "align(8)"), ("i16", "align(1)"), (None, "u16"), (None, "align(4)"), ("u32", "align(2)"), (None, "C")):
+        for payload in (False, True):
+            if payload and own is None:
+                continue
+            vs = [Variant("A", "tuple", [Field("u8")]) if payload else Variant("A", "unit"), Variant("B", "unit"), Variant("C", "named", [Field("i32", "a")]) if payload else Variant("C", "unit"),
+                  Variant("D", "unit")]
+            if own not in (None, "C"):
+                vs[1].discr = 7
+            for before in (False, True):
+                dms = [DM("other", "repr(%s)" % req), DM("derive", paths=["Hash"])]
+                it = Item("E", vs if not before else copy.deepcopy(vs), repr=own, dmetas=dms if before else dms[::-1])
+                items.append(("repr-requested", it))
     # non-integer repr hints are copied too: #[repr(C)] (layout observable through size_of / align_of)
     for nv in (1, 3, 5):
         items.append(("repr-c", Item("E", [Variant(names[i], "unit") for i in range(nv)], repr="C")))
@@ -219,6 +233,10 @@ def render_def(k, it, meta, cfg):
     if it.variants:
         refvs = ", ".join("%s%s" % (v.ident, (" = %s" % (v.discr_expr or v.discr)) if v.discr is not None else "") for v in it.variants)
         hints = ", ".join(it.repr_form) if it.repr_form else it.repr
+        # hints requested for the generated enum through strum_discriminants(repr(..)) ADD to the copied ones
+        extra = [m.s[len("repr("):-1] for m in it.dmetas if m.kind == "other" and m.s.startswith("repr(")]
+        if extra:
+            hints = ", ".join(([hints] if hints else []) + extra)
         inner.append("%s#[derive(Clone, Copy)] pub enum HarnessRef { %s }" % (("#[repr(%s)] " % hints) if hints else "", refvs))
         inner.append("pub fn layout() -> String { format!(\"{}/{},{}/{}\", std::mem::size_of::<%s>(), std::mem::size_of::<HarnessRef>(), std::mem::align_of::<%s>(), std::mem::align_of::<HarnessRef>()) }" % (dname, dname))
     else:
